@@ -813,10 +813,15 @@ impl CatalogPersistence {
     pub fn save(catalog: &Catalog, path: &Path) -> Result<()> {
         let catalog_bytes = Self::serialize(catalog).wrap_err("failed to serialize catalog")?;
 
-        let mut file = File::create(path)
-            .wrap_err_with(|| format!("failed to create catalog file at '{}'", path.display()))?;
+        // the new catalog is written to a temporary file and renamed over the old one
+        // only after it is on disk: a crash at any point leaves either the old or the
+        // new catalog, never a truncated or half-written one
+        let tmp_path = path.with_extension("catalog.tmp");
+        let mut file = File::create(&tmp_path).wrap_err_with(|| {
+            format!("failed to create catalog file at '{}'", tmp_path.display())
+        })?;
         #[cfg(kahflane_turdb_verif)]
-        crate::verif::file_event("truncated", path);
+        crate::verif::file_event("truncated", &tmp_path);
 
         let mut header = vec![0u8; HEADER_SIZE];
 
@@ -855,6 +860,13 @@ impl CatalogPersistence {
 
         file.sync_all()
             .wrap_err("failed to sync catalog file to disk")?;
+        drop(file);
+
+        std::fs::rename(&tmp_path, path).wrap_err_with(|| {
+            format!("failed to move the new catalog to '{}'", path.display())
+        })?;
+        #[cfg(kahflane_turdb_verif)]
+        crate::verif::point("catalog.renamed", &[]);
 
         Ok(())
     }
